@@ -120,6 +120,47 @@ def tam_events(o, cid, g, ids, rnd):
             e["exc"] = "ValueError"
         except Exception as ex:  # noqa
             e["exc"] = f"{type(ex).__name__}: {ex}"[:200]
+    # history on the SAME object: a different throw-away callable per call (created in a loop and
+    # garbage collected right after), evaluated at every score (points=None)
+    bases = [b for b in ("fnr", "fpr", "tpr", "tnr", "tonr", "topr")
+             if not (b in ("tpr", "fnr") and not o["pos"] or b in ("fpr", "tnr") and not o["neg"])]
+    ts = [[1, 2], [0, 1], [1, 3], [1, 1], [3, 2], [5, 2]]
+    for j, base in enumerate(bases[:4]):
+        w = [2, 4][(cid + j) % 2]
+        e = ev("threshold_at_metric", h=1, metric=f"x{w}_{base}", mode="all", k=0, pts=[], t=ts, out=[],
+               container_ok=True)
+        try:
+            res = s.threshold_at_metric(np.array([t[0] / t[1] for t in ts]),
+                                        lambda sc, th, w=w, base=base: w * getattr(sc, base)(th))
+            e["container_ok"] = bool(isinstance(res, list) and len(res) == len(ts))
+            e["out"] = [[rat(g.inv(float(v))) for v in np.asarray(z, dtype=float).reshape(-1)] for z in res]
+        except ValueError:
+            e["exc"] = "ValueError"
+        except Exception as ex:  # noqa
+            e["exc"] = f"{type(ex).__name__}: {ex}"[:200]
+    return evs
+
+
+def dense_events(ids, cid, tier):
+    """invert_pl_function on a curve given by MANY samples (the piecewise-linear function with knots
+    (0,3) (3,0) (6,3), resp. a zig-zag, sampled at 30001 .. 50001 points) with 600 .. 800 targets, so that
+    len(x) * len(targets) exceeds 2^24.  The judge works on the knots: the sampled curve is the same
+    function."""
+    from score_analysis.utils import invert_pl_function
+    evs = []
+    for k, (npts, ntg) in enumerate([(30001, 800)] if tier == "quick" else [(30001, 800), (48001, 491), (60001, 300)]):
+        kx, ky = ([0, 3, 6], [3, 0, 3]) if k % 2 == 0 else ([0, 2, 4, 6], [0, 3, 1, 2])
+        tg = [[(5 * j + k) % 25, 8] for j in range(ntg)]
+        e = {"id": next(ids), "cid": cid, "op": "invert", "exc": "", "x": [[v, 1] for v in kx],
+             "y": [[v, 1] for v in ky], "t": tg, "out": [], "container_ok": True, "variant": 0, "dense": npts}
+        try:
+            xa = np.linspace(0.0, 6.0, npts)
+            ya = np.interp(xa, kx, ky)
+            res = invert_pl_function(xa, ya, np.array([t[0] / t[1] for t in tg]))
+            e["out"], e["container_ok"] = rec_solutions(res, len(tg), False)
+        except Exception as ex:  # noqa
+            e["exc"] = f"{type(ex).__name__}: {ex}"[:200]
+        evs.append(e)
     return evs
 
 
@@ -158,6 +199,8 @@ def run(ctx: core.Ctx):
     for k, o in enumerate(objs[::step]):
         cases.append({"kind": "scores", **o})
         tam += tam_events(o, base + k, fam[(k + ctx.seed) % len(fam)], ids, rnd)
+    tam += dense_events(ids, len(cases), ctx.tier)
+    cases.append({"kind": "big_dense"})
     ctx.sample(events[len(events) // 2])
     ctx.sample(tam[1] if len(tam) > 1 else tam[0])
     ctx.judge("Trace_C17", events + tam, cases=cases, batch=2500)
